@@ -10,6 +10,7 @@ CONSTANTS
   Slack = 400
   RecoverMs = 7500
   RetryMs = 1000
+  SilenceMs = 10000
 SPECIFICATION TraceSpec
 POSTCONDITION Report
 CHECK_DEADLOCK FALSE
